@@ -9,7 +9,7 @@ import json, os
 _here = os.path.dirname(os.path.abspath(__file__))
 _fg = json.load(open(os.path.join(_here, 'forms_gen.json')))
 _st = json.load(open(os.path.join(_here, 'forms_status.json'))) if os.path.exists(os.path.join(_here, 'forms_status.json')) else None
-_sel = [h for h in _fg['harnesses'] if _st is None or _st.get(h['fn'], {}).get('accepted_runs', 0) > 0]
+_sel = [h for h in _fg['harnesses'] if h.get('known') != 'D15' and (_st is None or _st.get(h['fn'], {}).get('accepted_runs', 0) > 0)]
 # Rotation: the family is far larger than one run's budget. quick: ~14 harnesses per seed; thorough: ~220 per seed.
 _NQ = max(1, len(_sel) // 14); _NT = max(1, len(_sel) // 220)
 for _i, _h in enumerate(_sel):
